@@ -77,6 +77,12 @@ def curated():
     out.append(('multi-line-class', dict(name=None, extends=None, stmts=[
         ('rule', 'start', None, ('star', ('ref', 'L'))),
         ('class', 'L', None, [('field', 'w', ('re', '[ab]*', False)), ('field', 'nl', ('str', '\n'))])])))
+    # Backtrack failing as the reason of the overall failure (its own error function is what gets raised)
+    out.append(('backtrack-fails', dict(name=None, extends=None, stmts=[
+        ('rule', 'start', None, ('seq', [('opt', ('str', 'a')), ('backtrack', 2), ('re', '[ab]*', False)])),
+        ('rule', 'Only', None, ('backtrack', 1)),
+        ('rule', 'Alt', None, ('alt', [('backtrack', 3), ('seq', [('str', 'b'), ('backtrack', 2)])])),
+        ('class', 'Cls', None, [('field', 'a', ('opt', ('str', 'a'))), ('pass', ('backtrack', 2)), ('field', 'r', ('re', '[ab]*', False))])])))
     # zero-width regexes: match the empty string at some positions and fail at others
     out.append(('zero-width-regexes', dict(name=None, extends=None, stmts=[
         ('rule', 'start', None, ('left', ('ref', 'Word'), ('ref', 'End'))),
